@@ -213,6 +213,28 @@ def execute(script):
         return ('%d of %d flushed blocks do not read back byte-identical (%s)' % (len(lost), len(flushed), lost[:3]),
                 consistent and shared_exists)
 
+    def relaxed_resync():
+        """After a failed flush and a restart: the store must hold every block flushed before the fault, plus a
+        parent-closed, byte-identical subset of the failing batch; the reference continues from what is there."""
+        nonlocal flushed, handed, had_fault
+        got = {b.hash(): b for b in store.read_blocks_from_disk()}
+        for bid, b in got.items():
+            if bid not in pre_fault and bid not in fault_batch:
+                res.violate(PROP, 'C08/unknown-block-after-failed-flush', 'block never handed to the store')
+            elif b.serialize() != raw[bid]:
+                res.violate(PROP, 'C08/readback-mismatch-after-failed-flush', 'bytes differ for %s' % bid.hex()[:12])
+            p = b.header.summary.previous_block_hash
+            if p != b'\x00' * 32 and p not in got:
+                res.violate(PROP, 'C08/orphan-after-failed-flush', 'stored block without stored parent')
+        for bid in pre_fault:
+            if bid not in got:
+                res.violate(PROP, 'C08/flushed-block-lost-after-failed-flush',
+                            'a block flushed before the failing flush is gone: %s' % bid.hex()[:12])
+        flushed = pre_fault + [b for b in fault_batch if b in got]
+        handed = set(flushed) - {genesis_id}
+        had_fault = False
+        res.bump('relaxed_resyncs')
+
     try:
         for op in script['ops']:
             kind = op['op']
@@ -282,7 +304,7 @@ def execute(script):
             elif kind in ('close_reopen', 'drop_reopen'):
                 if kind == 'drop_reopen' and buffered:
                     res.bump('fault:restart_without_flush')
-                if kind == 'close_reopen' and not wedged:
+                if kind == 'close_reopen' and not wedged and not had_fault:
                     store.flush_blocks_to_disk()
                     for b in buffered:
                         if b not in flushed:
@@ -296,34 +318,17 @@ def execute(script):
                 buffered = []
                 wedged = False
                 res.bump('reopens')
+                if had_fault:
+                    relaxed_resync()
+                    if res.violations:
+                        break
             elif kind == 'read_all':
-                if wedged:
+                if wedged or had_fault:
                     continue
                 msg, f6_only = read_all()
                 res.bump('read_backs')
                 if had_fault:
-                    # relaxed, narrowly: after a failed flush the store holds a parent-closed subset of the accepted
-                    # blocks, each byte-identical (checked below); nothing else is asserted
-                    got = {b.hash(): b for b in store.read_blocks_from_disk()}
-                    for bid, b in got.items():
-                        if bid not in pre_fault and bid not in fault_batch:
-                            res.violate(PROP, 'C08/unknown-block-after-failed-flush', 'block never handed to the store')
-                        elif b.serialize() != raw[bid]:
-                            res.violate(PROP, 'C08/readback-mismatch-after-failed-flush', 'bytes differ for %s' % bid.hex()[:12])
-                        p = b.header.summary.previous_block_hash
-                        if p != b'\x00' * 32 and p not in got:
-                            res.violate(PROP, 'C08/orphan-after-failed-flush', 'stored block without stored parent')
-                    for bid in pre_fault:
-                        if bid not in got:
-                            res.violate(PROP, 'C08/flushed-block-lost-after-failed-flush',
-                                        'a block flushed before the failing flush is gone: %s' % bid.hex()[:12])
-                    # the reference continues from what the store really holds
-                    flushed = pre_fault + [b for b in fault_batch if b in got]
-                    handed = set(flushed) - {genesis_id}
-                    had_fault = False
-                    if res.violations:
-                        break
-                    continue
+                    raise RuntimeError('harness: fault not resynchronised')
                 if msg is not None:
                     cls = 'C08/readback-mismatch' if msg.endswith(')') else 'C08/readback-' + msg.split(' ')[0] + '-' + msg.split(' ')[1]
                     res.violate(PROP, cls, msg, {'f6_consistent': bool(f6_only)})
